@@ -87,12 +87,12 @@ def run_order(gfa, outdir, order, by_chrom, with_seq, hashseed=None, casedir=Non
     if hashseed is None:
         o = run_cli(argv)
         r.outcome = o.to_json()
-        r.warnings = [m for lv, m in o.log if lv == "WARNING"]
+        r.warnings = [m for lv, m in o.log if lv in ("WARNING", "ERROR", "CRITICAL")]
         r.tb = o.tb
     else:
         res = boot.run_boot({"argv": argv, "prop": prop}, casedir, hashseed, tag=tag)
         r.outcome = res["outcome"]
-        r.warnings = [m for lv, m in res.get("log", []) if lv == "WARNING"]
+        r.warnings = [m for lv, m in res.get("log", []) if lv in ("WARNING", "ERROR", "CRITICAL")]
         r.violations = res.get("violations", [])
         r.counts = res.get("counts", {})
         r.tb = res.get("tb", "")
